@@ -577,7 +577,12 @@ func (group *Group) writev2RtmpSubSessions(bs net.Buffers) {
 		if session.IsFresh || session.ShouldWaitVideoKeyFrame {
 			continue
 		}
-		_ = session.Writev(bs)
+		// net.Buffers.WriteTo consumes the slice it is given (entries are set to nil once written) and every
+		// session writes asynchronously in its own goroutine, so each session needs its own copy of the slice
+		// (the memory blocks themselves are shared).
+		tmp := make(net.Buffers, len(bs))
+		copy(tmp, bs)
+		_ = session.Writev(tmp)
 	}
 }
 
